@@ -4,7 +4,11 @@
 (* NOT from pyx12's counting loops (those are transcribed in SyntaxImpl).        *)
 (*                                                                              *)
 (*   note text  : one letter out of P R E C L followed by two or more two-digit *)
-(*                element positions, e.g. "P0304", "R020304", "C0102"           *)
+(*                element positions, e.g. "P0304", "R020304", "C0102"; in a map  *)
+(*                it is the text of a <syntax> element of the segment, white     *)
+(*                space around it not counted; every note so written binds the   *)
+(*                segment (T_Syntax: a note of the XML that the loaded segment   *)
+(*                node does not enforce is rejected as note_not_loaded)          *)
 (*   presence   : an element is present iff it carries a non-empty value; an    *)
 (*                element at a position beyond the segment's length is absent   *)
 (*   P paired            violated iff some but not all mentioned are present    *)
